@@ -202,7 +202,7 @@ class Builder:
 
 def standard_check(pid, tier, *, family, base_module, consts, invariants, n_beh, to_behaviour, harness_mode,
                    trace_module, trace_consts, clauses, extra=(), replay=None, level="model_checking",
-                   assumptions=(), chunk=40, explanation=""):
+                   assumptions=(), chunk=40, explanation="", extra_phase=None):
     """The common shape of a model-based check; returns the process exit code."""
     v = core.Verdict(pid, tier)
     sc = core.Scratch(pid)
@@ -230,8 +230,9 @@ def standard_check(pid, tier, *, family, base_module, consts, invariants, n_beh,
     if ndiv:
         v.notes.append("divergences from the as-is model (no verdict): %d; e.g. %s" % (
             ndiv, json.dumps(sorted(res["div"], key=lambda d: (str(d["trace"]), d["step"]))[:3])))
+    extra_cov = extra_phase(sc, v) if extra_phase and replay is None else {}
     steps = sum(len(b.get("steps", [])) for b in behs)
-    cov = dict(
+    cov = dict(extra_cov,
         states=max(mc["distinct"], 1), transitions=max(mc["generated"], 1),
         traces_validated_against_impl=len(behs), impl_steps_judged=steps, trace_lines=nlines,
         divergences=ndiv, model_invariants=list(invariants), model_invariant_violated=mc.get("violated"),
